@@ -5,7 +5,10 @@
  * The first SHARD choices of a history are explorer choices
  * (abtmc_choose(.., FREE): every combination is a separate execution); the
  * remaining ones are enumerated inside the execution, each history on a fresh
- * global pool.  Oracle: see c15_pool.h. */
+ * global pool.  Oracle: see c15_pool.h.
+ * History notation in messages: A<p> alloc from pool p, Fo<p>/Fn<p> free the
+ * oldest/newest live block into pool p, R<p> destroy + re-initialise pool p,
+ * Ax<p> alloc from pool p while the next page allocation fails. */
 #include "c15_pool.h"
 
 enum { K_ALLOC, K_FREE_OLD, K_FREE_NEW, K_RECREATE, K_ALLOC_FAULT };
@@ -187,8 +190,19 @@ static int apply(const op_t *o)
 
 /* runs ops[0..n) on a fresh set of pools; returns the index of the first
  * inapplicable op (n if all applied) */
+static char hist[100];
+static void hist_add(const op_t *o)
+{
+    static const char *kn[] = { "A", "Fo", "Fn", "R", "Ax" };
+    size_t l = strlen(hist);
+    snprintf(hist + l, sizeof(hist) - l, "%s%s%d", l ? " " : "", kn[o->kind],
+             o->pool);
+}
+
 static int run_history(const int *h, int n)
 {
+    hist[0] = 0;
+    px_context = hist;
     px_init(&X, &C->P);
     for (int i = 0; i < C->P.nlocal; i++) {
         int r = px_local_init(&X, i);
@@ -197,9 +211,11 @@ static int run_history(const int *h, int n)
     }
     px_check_structure(&X, "after initialisation");
     int k;
-    for (k = 0; k < n; k++)
+    for (k = 0; k < n; k++) {
+        hist_add(&C->ops[h[k]]);
         if (!apply(&C->ops[h[k]]))
             break;
+    }
     px_teardown(&X);
     return k;
 }
